@@ -263,9 +263,12 @@ def run_unit(u):
         if len(set(counts)) != 1:
             add(dict(base, n=N0), "length-dependent", f"source chunks produced after the consumer stopped depend on the run length: {counts}", {"choices": []})
         one(N0, coop.NamedPriorityChooser(list(reversed(up))), "downstream-first")
+        # lazy mailboxes with several subscribers (a saver or a second branch beside the driving reader) have the
+        # narrow windows (sender re-checks demand between a send and the wake-up of the reader): more PCT runs
+        multi_sub = base["lazy"] and base["graph"] in ("chain_savers", "multi_saved", "diamond")
         for j in range(2 if q else 25):
             one(N0, coop.RandomChooser(u["seed"] * 1009 + ci * 17 + j), "random")
-        for j in range(1 if q else 10):
+        for j in range((10 if multi_sub else 1) if q else (60 if multi_sub else 10)):
             one(N0, coop.PCTChooser(u["seed"] * 2003 + ci * 19 + j, depth=4, horizon=2000), "pct")
         if not res["samples"]:
             res["samples"].append({"cfg": base, "source_chunks_after_stop(N,2N,..)": counts})
